@@ -207,7 +207,13 @@ def check_short_input(rc: RuleCtx, rule: str, fi, extra_args=None, allow=None, l
     # (the exits that hand back the input itself are judged here: each must be confined to at most one knee)
     from .common import account_exits
     from .common import returned_expr as _rexpr
-    account_exits(fi, lambda r: isinstance(_rexpr(fi, r), ast.Name) and _rexpr(fi, r).id == "knees")
+
+    def _is_input(r):
+        e = _rexpr(fi, r)
+        if isinstance(e, ast.Call) and ast.unparse(e.func) in ("np.array", "np.asarray", "numpy.array") and len(e.args) == 1 and all(k.arg == "dtype" for k in e.keywords):
+            e = e.args[0]
+        return isinstance(e, ast.Name) and e.id == "knees"
+    account_exits(fi, _is_input)
     ok = True
     n = 0
     for g, v in out.returns:
@@ -310,6 +316,9 @@ def corner_guard(rc: RuleCtx, name: str):
 
 def _corners(rc: RuleCtx):
     res = rc.res
+    # an exit that hands back the knees unfiltered is right for at most one knee only (both functions look at every knee)
+    for q_ in ("filter_corner_knees", "select_corner_knees"):
+        check_short_input(rc, "W3", rc.func(f"postprocessing.{q_}"), extra_args=lambda e: {"t": e.symbol("t")}, label=f"[{q_}]")
     a = corner_guard(rc, "filter_corner_knees")
     b = corner_guard(rc, "select_corner_knees")
     if a is None or b is None:
